@@ -364,7 +364,16 @@ def prog_check(pid):
     return chk
 
 
-CHECKS = {"C08": check_C08, "C01": check_C01, "C04": check_C04, "C06": check_C06}
+def check_C12(tier, seed):
+    return mc_sess_check("C12", tier, seed, "MC_C12.tla",
+        rule="TLC explores the state graph of the abstract machine under session prefixes that dirty every component "
+             "of the program state (variables, arrays, DEFtype, user functions, frames left by STOP / an error / an "
+             "abandoned direct FOR / a direct GOSUB, the DATA pointer, the continuation; NEW followed by re-entry of "
+             "a program that observes leaked state) and checks RunIsFresh, ClearIsInit, NewIsEmpty as action "
+             "properties; every transition is a session whose whole probe is compared after each command")
+
+
+CHECKS = {"C12": check_C12, "C08": check_C08, "C01": check_C01, "C04": check_C04, "C06": check_C06}
 for _p in ("C09", "C10", "C11", "C17"):
     CHECKS[_p] = prog_check(_p)
 
